@@ -274,6 +274,55 @@ func c06HTTP(r *ev.Result, quick bool) {
 	r.Evaluations += total
 	r.Distinct += total
 	r.Traces += total
+	c06HTTPLateOutput(r)
 	r.Set("http_seam_admission_orders", total)
 	r.Sample(12, map[string]any{"http_seam": []string{"io", "io"}, "admission_order": []int{0, 3, 1, 2}, "meaning": "halves numbered in order of arrival at the broker: client 0's two, then client 1's two"})
+}
+
+// c06HTTPLateOutput: a unidirectional shell loses its input connection; its
+// output connection stays open and idle (net/http keeps it until the client
+// ends its upload).  A bidirectional client then becomes the shell.  What the
+// old output connection sends now belongs to no shell: the operator's shell is
+// made of the /io request's two halves only.
+func c06HTTPLateOutput(r *ev.Result) {
+	w, err := hworld.Start(hworld.Config{})
+	if nil != err {
+		ev.Broken("%s", err)
+	}
+	defer w.Stop()
+	v := func(sig, what string) {
+		r.Violate(ev.Violation{Signature: "http/" + sig, What: what, Kind: "c06http", Replay: map[string]any{"http_seam": "late output of an earlier shell"}})
+	}
+	in, out, err := attachShell(w, "uni", "old")
+	if nil != err {
+		v("no-shell", err.Error())
+		return
+	}
+	defer out.Close()
+	in.Close() /* The input connection dies; the output one stays, silent. */
+	if _, ok := w.WaitNotice(func(cl opshell.CLine) bool { return strings.Contains(cl.Line, "Shell is gone") }); !ok {
+		v("not-torn-down", "the input connection of a unidirectional shell was closed, no 'gone' notice followed")
+		return
+	}
+	nio, _, err := attachShell(w, "io", "")
+	if nil != err {
+		v("next-shell-refused", "after the unidirectional shell was gone a bidirectional client is not accepted: "+err.Error())
+		return
+	}
+	defer nio.Close()
+	w.Drain()
+	out.Send(chunk("OUTPUT-OF-THE-OLD-SHELL\n"))
+	nio.Send(chunk("output-of-the-io-shell\n"))
+	ns, ok := w.WaitNotice(func(cl opshell.CLine) bool { return cl.Plain && strings.Contains(cl.Line, "output-of-the-io-shell") })
+	if !ok {
+		v("probe-chunk-not-shown", "the bidirectional shell's output is not displayed")
+	}
+	time.Sleep(50 * time.Millisecond)
+	for _, cl := range append(ns, w.Drain()...) {
+		if cl.Plain && strings.Contains(cl.Line, "OUTPUT-OF-THE-OLD-SHELL") {
+			v("cross-paired-halves", "the operator's shell is the /io client, yet what the earlier shell's still-open output connection sent was displayed as shell output: output of another request than the one whose input half is attached")
+		}
+	}
+	r.Add(1)
+	r.Traces++
 }
